@@ -163,9 +163,9 @@ def state_key(g):
 # ---------------------------------------------------------------------------------------------
 # actions
 # ---------------------------------------------------------------------------------------------
-def act(name, n=0, t=0, i=0, seq=(), before=0, after=0, key=0, rev=0, via=0):
+def act(name, n=0, t=0, i=0, seq=(), before=0, after=0, key=0, rev=0, via=0, seq2=(), seq3=()):
     return {"name": name, "n": n, "t": t, "i": i, "seq": list(seq), "before": before, "after": after,
-            "key": key, "rev": rev, "via": via}
+            "key": key, "rev": rev, "via": via, "seq2": list(seq2), "seq3": list(seq3)}
 
 
 def _one_or_list(U, seq):
@@ -191,6 +191,31 @@ def _dispatch(U, name, a):
     T = U.task
     n, t, seq = a["n"], a["t"], a["seq"]
     via = a.get("via", 0)
+    if name == "New":
+        # Task(id, parent=, children=, successors=, predecessors=): a NEW object takes the place of the
+        # isolated task t (same id and attributes).  key: bit 1 children given, bit 2 successors, bit 4 predecessors
+        pj = common.pjplan()
+        old = T(t)
+        kw = {}
+        if n:
+            kw["parent"] = T(n)
+        if a["key"] & 1:
+            kw["children"] = [T(x) for x in seq]
+        if a["key"] & 2:
+            kw["successors"] = [T(x) for x in a["seq2"]]
+        if a["key"] & 4:
+            kw["predecessors"] = [T(x) for x in a["seq3"]]
+        try:
+            U.tasks[t - 1] = pj.Task(old.id, name=old.name, prio=old.prio, **kw)
+        except BaseException:
+            # a half-built object may have stayed attached to universe tasks: it IS task t now
+            z = _find_stranger(U)
+            if z is not None:
+                U.tasks[t - 1] = z
+                U.handles[t - 1] = z.children
+            raise
+        U.handles[t - 1] = U.tasks[t - 1].children      # the long-lived handle belongs to the new object
+        return None
     if name == "SetParent":
         T(t).parent = None if n == 0 else T(n)
         return None
@@ -276,6 +301,19 @@ def _dispatch(U, name, a):
     raise AssertionError("unknown action " + name)
 
 
+def _find_stranger(U):
+    known = {id(x) for x in U.tasks}
+    for x in U.tasks:
+        for y in list(x.children) + list(x.predecessors) + list(x.successors) + ([x.parent] if x.parent else []):
+            if id(y) not in known:
+                return y
+    for w in U.wbs:
+        for y in w.roots:
+            if id(y) not in known:
+                return y
+    return None
+
+
 def _b(x):
     return 1 if x is True else (0 if x is False else 2)
 
@@ -284,9 +322,17 @@ LIST_FACADE = {"ChMove", "ChSort", "ChReorder", "ChRemove", "ListLShift", "ListR
                "SetSuccsFrom"}
 
 
+def isolated(pre, t):
+    return (pre["par"][t - 1] == 0 and pre["own"][t - 1] == 0 and not pre["ch"][t - 1] and not pre["pre"][t - 1]
+            and not pre["suc"][t - 1] and not any(t in l for l in pre["ch"]))
+
+
 def pruned(pre, a, N):
     """Exploration-only pruning: list-facade calls on an EMPTY list are kept for node 1 only
-    (they are refused or no-ops for every node alike)."""
+    (they are refused or no-ops for every node alike); a constructor call stands for a NEW object and is
+    only made in place of a task that has no relations at all."""
+    if a["name"] == "New":
+        return not isolated(pre, a["t"])
     return a["name"] in LIST_FACADE and a["n"] != 1 and not pre["ch"][a["n"] - 1]
 
 
@@ -360,6 +406,21 @@ def alphabet(N, W, L=2, ids=None, level=2, light=False):
                 A.append(act("ListRShift", n=n, seq=s))
             for t in tasks:
                 A.append(act("SetChildrenOne", n=n, t=t))
+        # constructor forms: Task(id, parent=p), Task(id, children=[..]), ... and combinations of two arguments
+        for t in tasks:
+            others = [x for x in tasks if x != t]
+            for p in [0] + others:
+                if p:
+                    A.append(act("New", t=t, n=p))
+                for s1 in [[x] for x in others]:        # a constructor cannot name the object it creates
+                    A.append(act("New", t=t, n=p, key=1, seq=s1))
+                    A.append(act("New", t=t, n=p, key=2, seq2=s1))
+                    A.append(act("New", t=t, n=p, key=4, seq3=s1))
+            for s1 in [[x] for x in others]:
+                for s2 in [[x] for x in others]:
+                    A.append(act("New", t=t, key=3, seq=s1, seq2=s2))
+                    A.append(act("New", t=t, key=5, seq=s1, seq3=s2))
+                    A.append(act("New", t=t, key=6, seq2=s1, seq3=s2))
         # live list objects of the API as arguments (a.children = b.children, a.children = a.children, ...)
         for n in nodes:
             for m in nodes:
